@@ -411,6 +411,8 @@ structure Inst where
   inflight : List (Key × MRec) := []    -- creatingTreasures
   waiting : List Key := []              -- treasuresWaitingForWriter
   expIdx : Option (List Key) := none    -- expiration-time beacon (none = not built)
+  imm : Bool := false                   -- write interval 0: `SaveFunction` writes at once
+  disk : Option (List (Key × PRec)) := none   -- what the chronicler holds (none = no file yet)
   deriving DecidableEq, Repr, Inhabited
 
 structure State where
@@ -447,7 +449,7 @@ def exists_ (s : State) : Bool := s.live.isSome || s.file.isSome
 def summon (s : State) : Inst :=
   match s.live with
   | some i => i
-  | none => { recs := AL.mapV loadRec (s.file.getD []) }
+  | none => { recs := AL.mapV loadRec (s.file.getD []), imm := s.kind == .p0, disk := s.file }
 
 /-- `isValidTimestamp` -/
 def validTs (cfg : Cfg) (n : Int) : Bool :=
@@ -503,6 +505,18 @@ def idxAdd (k : Key) : Option (List Key) → Option (List Key)
   | none => none
   | some l => if l.contains k then some l else some (l ++ [k])
 
+/-- `fileWriterHandler`: write every treasure waiting for the writer (a key that is no longer in
+    the key beacon is written as a delete) -/
+def flushDisk (e : Encoding) (recs : List (Key × MRec)) (waiting : List Key)
+    (disk : Option (List (Key × PRec))) : Option (List (Key × PRec)) :=
+  if waiting.isEmpty then disk
+  else some (waiting.foldl (fun f k =>
+    match AL.find k recs with
+    | some t => AL.insert k (persistRec e t) f
+    | none => AL.erase k f) (disk.getD []))
+
+def addWaiting (w : List Key) (k : Key) : List Key := if w.contains k then w else w ++ [k]
+
 /-- `SaveFunction` (swamp.go) for the treasure `t` of key `k` (already mutated in place).
     `fresh` = flags raised by the current request. -/
 def save (cfg : Cfg) (i : Inst) (k : Key) (t : MRec) (fresh : Bool) : Inst × St × List Tag :=
@@ -510,20 +524,26 @@ def save (cfg : Cfg) (i : Inst) (k : Key) (t : MRec) (fresh : Bool) : Inst × St
   match AL.find k i.recs with
   | none =>
     ({ i with recs := AL.insert k cleared i.recs, inflight := AL.erase k i.inflight,
-              waiting := if i.waiting.contains k then i.waiting else i.waiting ++ [k],
+              waiting := if i.imm && cfg.saveReleasesImmediate then [] else addWaiting i.waiting k,
+              disk := if i.imm && cfg.saveReleasesImmediate then
+                        flushDisk cfg.encoding (AL.insert k cleared i.recs) (addWaiting i.waiting k) i.disk
+                      else i.disk,
               expIdx := if t.m.exp ≠ 0 then idxAdd k i.expIdx else i.expIdx }, .new, [])
   | some told =>
     if t.changed then
       let idx := if t.expChanged then (if t.m.exp ≠ 0 then idxAdd k (idxRemove k i.expIdx) else idxRemove k i.expIdx) else i.expIdx
       ({ i with recs := AL.insert k cleared i.recs,
-                waiting := if i.waiting.contains k then i.waiting else i.waiting ++ [k],
+                waiting := if i.imm && cfg.saveReleasesImmediate then [] else addWaiting i.waiting k,
+                disk := if i.imm && cfg.saveReleasesImmediate then
+                          flushDisk cfg.encoding (AL.insert k cleared i.recs) (addWaiting i.waiting k) i.disk
+                        else i.disk,
                 expIdx := idx }, .upd, if fresh then [] else [Tag.stickyFlags])
     else ({ i with recs := if t = told then i.recs else AL.insert k t i.recs }, .same, [])
 
 /-- `deleteHandler` -/
 def deleteRec (i : Inst) (k : Key) : Inst :=
   { i with recs := AL.erase k i.recs,
-           waiting := if i.waiting.contains k then i.waiting else i.waiting ++ [k],
+           waiting := addWaiting i.waiting k,
            expIdx := idxRemove k i.expIdx }
 
 /-- end of a request: auto-destroy of an emptied swamp is done by the delete paths themselves;
@@ -568,7 +588,8 @@ def shiftLoop : Inst → List Key → Inst × List (Key × Rec)
     | none => shiftLoop i rest
     | some t =>
       let (i', out) := shiftLoop (deleteRec i k) rest
-      (i', (k, wire t.abs) :: out)
+      -- the reply carries `treasureObj.Clone(...)`
+      (i', (k, wire { t with c := t.c.clone }.abs) :: out)
 
 def delLoop : Inst → List Key → Inst × List St
   | i, [] => (i, [])
@@ -719,16 +740,17 @@ def u32delLoop (cfg : Cfg) (kind : Kind) : Inst → List (Key × List Nat) → O
     | .destroyed tg => (none, false, false, tg)   -- later pairs find nothing in the destroyed instance
     | .hang tg => (some i, false, true, tg)
 
-/-- flush `treasuresWaitingForWriter` to the file -/
-def flush (cfg : Cfg) (i : Inst) (file : Option (List (Key × PRec))) : Option (List (Key × PRec)) :=
-  if i.waiting.isEmpty then file
-  else some (i.waiting.foldl (fun f k =>
-    match AL.find k i.recs with
-    | some t => AL.insert k (persistRec cfg.encoding t) f
-    | none => AL.erase k f) (file.getD []))
+/-- the file after `Close` -/
+def closeDisk (cfg : Cfg) (i : Inst) : Option (List (Key × PRec)) :=
+  flushDisk cfg.encoding i.recs i.waiting i.disk
 
+/-- what a close/reload changes: a written record whose visible value is not what was stored
+    (`zeroLikeDropped`), or a record whose in-memory state was never handed to the writer -/
 def closeTags (cfg : Cfg) (i : Inst) : List Tag :=
-  if i.recs.any (fun p => decide ((persistContent cfg.encoding p.2.c).vis ≠ p.2.c.vis)) then [Tag.zeroLikeDropped] else []
+  (if i.recs.any (fun p => decide ((persistContent cfg.encoding p.2.c).vis ≠ p.2.c.vis)) then [Tag.zeroLikeDropped] else []) ++
+  (if i.recs.any (fun p => !i.waiting.contains p.1 &&
+        decide ((AL.find p.1 (i.disk.getD [])).map (fun q => (loadRec q).abs) ≠ some (loadRec (persistRec cfg.encoding p.2)).abs))
+   then [Tag.incFailTrace] else [])
 
 def stepCore (cfg : Cfg) (ar : Arith) (now : Int) (s : State) (req : Req) : Out :=
   match req with
@@ -813,7 +835,7 @@ def closeStep (cfg : Cfg) (s : State) : State × List Tag :=
   | some i =>
     match s.kind with
     | .mem => ({ s with live := none }, [])
-    | _ => ({ s with live := none, file := flush cfg i s.file }, closeTags cfg i)
+    | _ => ({ s with live := none, file := closeDisk cfg i }, closeTags cfg i)
 
 /-- the Spec-level view of a model state -/
 def abs (s : State) : Spec.Store :=
